@@ -33,10 +33,11 @@ def main():
     ap.add_argument('--src', default='/tmp/seed-out')
     ap.add_argument('--no-keep', action='store_true')
     ap.add_argument('--skip-tests', action='store_true')
+    ap.add_argument('--keep-as', default=None, help='number under which the change is kept in /verif/seeded')
     args = ap.parse_args()
     prop, n = args.prop, args.n
     src = os.path.join(args.src, prop)
-    kept = os.path.join(VERIF, 'seeded', '%s-%s' % (prop, n))
+    kept = os.path.join(VERIF, 'seeded', '%s-%s' % (prop, args.keep_as or n))
     patch = os.path.join(src, 'patch%s.diff' % n)
     demo = os.path.join(src, 'demo%s.py' % n)
     if not os.path.exists(patch) and os.path.exists(os.path.join(kept, 'patch.diff')):
@@ -99,7 +100,7 @@ def main():
                 'check_results': dict(meta.get('check_results', {}), **{c: {'exit': v['exit'], 'first_violation': v['first']}
                                                                        for c, v in res['checks'].items()}),
             })
-            needs = json.load(open(os.path.join(VERIF, 'tools', 'seeded_needs.json'))).get('%s-%s' % (prop, n))
+            needs = json.load(open(os.path.join(VERIF, 'tools', 'seeded_needs.json'))).get('%s-%s' % (prop, args.keep_as or n))
             if needs:
                 meta['change'] = needs[0]
                 meta['needs_to_manifest'] = needs[1]
